@@ -223,6 +223,14 @@ class MetricTranslator:
                 self._assign(s, env, ops, obl, fi, depth)
                 i += 1
                 continue
+            if isinstance(s, ast.Assign) and len(s.targets) == 1 and isinstance(s.targets[0], ast.Tuple) \
+                    and isinstance(s.value, ast.Tuple) and len(s.value.elts) == len(s.targets[0].elts) \
+                    and all(isinstance(t, ast.Name) for t in s.targets[0].elts):
+                vals = [self._expr(v, env, ops, obl, fi, depth) for v in s.value.elts]  # a, b = E1, E2
+                for t, v in zip(s.targets[0].elts, vals):
+                    env[t.id] = v
+                i += 1
+                continue
             if isinstance(s, ast.Return):
                 return self._expr(s.value, env, ops, obl, fi, depth)
             if isinstance(s, ast.If) and len(s.body) == 1 and isinstance(s.body[0], ast.Return) and s.body[0].value is not None:
@@ -302,6 +310,34 @@ class MetricTranslator:
         return isinstance(node, ast.Call) and unparse(node.func) in ("np.zeros", "numpy.zeros", "np.empty")
 
     def _element_loop(self, loop: ast.For, target: str, env, ops, obl, fi, depth):
+        pre_bind = {}
+        if isinstance(loop.iter, ast.Call) and unparse(loop.iter.func) == "enumerate" and len(loop.iter.args) == 1 \
+                and not loop.iter.keywords and isinstance(loop.target, ast.Tuple) and len(loop.target.elts) == 2 \
+                and isinstance(loop.target.elts[0], ast.Name):
+            # `for i, v in enumerate(xs)` / `for i, (a, b) in enumerate(zip(xs, ys))` over whole vectors is the index loop
+            # over range(n) with v = xs[i] (element-wise values)
+            src, tgt = loop.iter.args[0], loop.target.elts[1]
+            seqs, names = [src], [tgt]
+            if isinstance(src, ast.Call) and unparse(src.func) == "zip" and not src.keywords and isinstance(tgt, ast.Tuple) \
+                    and len(tgt.elts) == len(src.args):
+                seqs, names = list(src.args), list(tgt.elts)
+            ok = all(isinstance(nm, ast.Name) for nm in names)
+            vals = []
+            if ok:
+                for sq in seqs:
+                    k, e = self._expr(sq, env, ops, obl, fi, depth)
+                    ok = ok and k in ("vec", "boolvec")
+                    vals.append((k, e))
+            if not ok:
+                raise AnalysisError(f"{fi.name}: unsupported loop header")
+            for nm, (k, e) in zip(names, vals):
+                pre_bind[nm.id] = ("scalar" if k == "vec" else "bool", e)
+            loop = copy.copy(loop)
+            loop.target = loop.target.elts[0]
+            loop.iter = ast.Call(func=ast.Name(id="range", ctx=ast.Load()),
+                                 args=[ast.Call(func=ast.Name(id="len", ctx=ast.Load()), args=[seqs[0]], keywords=[])], keywords=[])
+            ast.copy_location(loop.iter, loop.target)
+            ast.fix_missing_locations(loop.iter)
         if not (isinstance(loop.target, ast.Name) and isinstance(loop.iter, ast.Call) and unparse(loop.iter.func) == "range"):
             raise AnalysisError(f"{fi.name}: unsupported loop header")
         ivar = loop.target.id
@@ -322,6 +358,7 @@ class MetricTranslator:
                                   "coordinates (range(x.shape[0]) expected)")
         lenv = dict(env)
         lenv[ivar] = ("index", None)
+        lenv.update(pre_bind)
 
         def body(stmts, benv):
             benv = dict(benv)
@@ -391,6 +428,8 @@ class MetricTranslator:
                 name = d[2:]
                 if name == "MAX_ARC_WEIGHT":
                     return ("scalar", ops.K)
+                if name == "FLOAT_MAX":
+                    return ("scalar", sp.oo)  # only meaningful as a clip bound: min(v, FLOAT_MAX) is v for finite v
                 if name in self.consts and isinstance(self.consts[name], (int, float)):
                     return ("scalar", sp.nsimplify(self.consts[name], rational=True))
             raise AnalysisError(f"{fi.name}: attribute {d} outside the whitelist")
@@ -409,6 +448,23 @@ class MetricTranslator:
                     if base[0] == "boolvec":
                         return ("bool", base[1])
             raise AnalysisError(f"{fi.name}: subscript {unparse(node)} outside the whitelist")
+        if isinstance(node, ast.IfExp):
+            # A if c else B on scalars (inside an element loop: per coordinate)
+            kc, cnd = self._expr(node.test, env, ops, obl, fi, depth)
+            if kc not in ("bool", "boolvec"):
+                raise AnalysisError(f"{fi.name}:{line}: conditional expression on a non-boolean test")
+            n0 = len(obl)
+            ka, a = self._expr(node.body, env, ops, obl, fi, depth)
+            for ob in obl[n0:]:
+                ob.assume += (cnd,)
+            n0 = len(obl)
+            kb, b = self._expr(node.orelse, env, ops, obl, fi, depth)
+            for ob in obl[n0:]:
+                ob.assume += (sp.Not(cnd),)
+            if ka not in ("scalar", "vec") or kb not in ("scalar", "vec"):
+                raise AnalysisError(f"{fi.name}:{line}: conditional expression of non-numeric arms")
+            kind = "vec" if "vec" in (ka, kb) or kc == "boolvec" else "scalar"
+            return (kind, sp.Piecewise((a, cnd), (b, True)))
         if isinstance(node, ast.UnaryOp) and isinstance(node.op, (ast.Invert, ast.Not)):
             k, e = self._expr(node.operand, env, ops, obl, fi, depth)
             if k in ("bool", "boolvec"):
